@@ -1532,6 +1532,15 @@ class Ev:
     def subscript(self, base, idx, n=None, mod=None):
         if isinstance(base, Masked):
             base = base.val
+        if (is_sym(base) or (isinstance(base, ArrV) and base.batch and not base.batch_last)) and self.__dict__.get("block_loops") is not None or \
+                (isinstance(idx, Tup) and idx.items and type(idx.items[0]).__name__ == "BlockRows") or type(idx).__name__ == "BlockRows":
+            sel = block_selector(self, idx)
+            if sel is not None and (is_sym(base) or (isinstance(base, ArrV) and base.batch and not base.batch_last)):
+                # the rows of one block of the leading grid axis: arrays are elementwise over the grid, so the block is the same expression
+                # (whether the blocks together are the whole axis is decided where the result is stored)
+                return base
+        if isinstance(base, ArrV) and base.batch >= 2 and not base.batch_last and is_sym(idx) and idx.is_Integer and getattr(base, "grid_dims", None):
+            return GridSlab(base)
         if hasattr(base, "sym_subscript"):
             return base.sym_subscript(self, idx, n, mod)
         if isinstance(base, PairList):
@@ -1543,6 +1552,12 @@ class Ev:
         if isinstance(base, Opaque):
             return Opaque(f"{base.name}[{idx!r}]")
         if isinstance(base, ShapeOf):
+            # the grid convention of the folder: dim0 is the length of the temperature axis, dim1 of the volume axis; a vector over the volumes only
+            # (v_array.shape[0]) has its one axis along dim1
+            if is_sym(base.v) and is_sym(idx) and idx == 0:
+                names = {s_.name for s_ in as_sym(base.v).free_symbols}
+                if "V" in names and "T" not in names:
+                    return sp.Symbol("dim1", positive=True, integer=True)
             return sp.Symbol(f"dim{idx}", positive=True, integer=True)
         if isinstance(base, ArrV):
             items = idx.items if isinstance(idx, Tup) and idx.kind != "list" else [idx]
@@ -2114,6 +2129,14 @@ class Ev:
         self.epoch += 1
         base = self.eval(t.value, env, mod)
         idx = self.eval(t.slice, env, mod)
+        sel = block_selector(self, idx) if (self.__dict__.get("block_loops") is not None or "BlockRows" in (type(idx).__name__, type(idx.items[0]).__name__ if isinstance(idx, Tup) and idx.items else "")) else None
+        if sel is not None and isinstance(t.value, ast.Name) and (is_sym(base) or isinstance(base, Masked) or (isinstance(base, ArrV) and base.batch and not base.batch_last)):
+            # out[rows] = v for every block: out = v on the rows the blocks cover - all of them, or a finding
+            block_cover(self, sel, t, mod)
+            if isinstance(base, ArrV) and isinstance(v, ArrV) and tuple(v.shape) != tuple(base.shape):
+                raise RaisedV("ValueError", f"{mod.rel}:{getattr(t, 'lineno', 0)}" if mod else "")
+            env[t.value.id] = v
+            return
         if hasattr(base, "sym_store"):
             return base.sym_store(self, idx, v, t, mod)
         if isinstance(base, DictV):
@@ -2574,6 +2597,10 @@ class ShapeOf:
     def __init__(self, v):
         self.v = v
 
+    def sym_iter(self, ev, n, mod):
+        # (*x.shape,) inside another shape: the grid dimensions of x, however many - one opaque item (only shapes are built from it)
+        return [sp.Function("DIMS_OF")(as_sym(self.v) if is_sym(self.v) else sp.Symbol(f"ARRAY{id(self.v)}"))]
+
 
 Indexed = sp.Function("Indexed")
 
@@ -2765,13 +2792,111 @@ class RankOf(sp.Function):
     nargs = 1
 
 
+class GridSlab:
+    """x[k] of an array with two or more grid axes: only its size is known (how many bytes one row of the leading axis takes)"""
+
+    def __init__(self, arr):
+        self.arr = arr
+
+    def sym_getattr(self, ev, name, node, mod):
+        dims = [as_sym(d) for d in self.arr.grid_dims[1:]] + [sp.Integer(d) for d in self.arr.shape]
+        if name == "shape":
+            return Tup(dims, "tuple")
+        if name in ("size", "nbytes"):
+            tot = sp.Integer(1)
+            for d in dims:
+                tot *= d
+            return tot * (8 if name == "nbytes" else 1)
+        if name == "itemsize":
+            return sp.Integer(8)
+        raise ev.err(f"attribute {name} of one row of a grid array", node, mod)
+
+
+class BlockRangeV:
+    """range(K) with a trip count that depends on the grid: iterated once, with a symbolic block index (cijsa.blocks)"""
+
+    def __init__(self, count):
+        self.count = count
+
+    def sym_iter(self, ev, n, mod):
+        from .blocks import BlockLoop
+        loops = ev.__dict__.setdefault("block_loops", {})
+        i = sp.Symbol(f"BLOCK{len(loops)}", integer=True, nonnegative=True)
+        loops[i] = BlockLoop(i, self.count)
+        return [i]
+
+
 def lib_range(ev, a, k, n, mod):
+    if len(a) == 1 and is_sym(a[0]) and not as_sym(a[0]).is_number and as_sym(a[0]).is_integer is not False:
+        return BlockRangeV(as_sym(a[0]))
     ints = [_const_int(x) for x in a]
     if len(ints) == 1:
         return RangeV(0, ints[0])
     if len(ints) == 2:
         return RangeV(ints[0], ints[1])
     return RangeV(*ints)
+
+
+def block_selector(ev, idx):
+    """the block family an index stands for: a slice whose bounds contain the index of a block loop, or a piece of array_split; None otherwise"""
+    from .blocks import BlockRows
+    first = idx.items[0] if isinstance(idx, Tup) and idx.kind != "list" and idx.items else idx
+    rest = idx.items[1:] if isinstance(idx, Tup) and idx.kind != "list" else []
+    if not all(isinstance(r, SliceV) and r.lo is None and r.hi is None and r.step is None or r is Ellipsis for r in rest):
+        return None
+    if isinstance(first, BlockRows):
+        return first
+    loops = ev.__dict__.get("block_loops") or {}
+    if isinstance(first, SliceV) and first.step is None and first.lo is not None and first.hi is not None and is_sym(first.lo) and is_sym(first.hi):
+        used = [i for i in loops if i in (as_sym(first.lo).free_symbols | as_sym(first.hi).free_symbols)]
+        if len(used) == 1:
+            return (loops[used[0]], as_sym(first.lo), as_sym(first.hi))
+    return None
+
+
+def block_cover(ev, sel, n, mod):
+    """the blocks of `sel` cover their axis exactly once - or a finding (with the witness) / an analysis error"""
+    from .blocks import BlockRows, check_slices, check_sections
+    cache = ev.__dict__.setdefault("block_verdicts", {})
+    key = id(sel) if isinstance(sel, BlockRows) else (sel[0].sym, sp.srepr(sel[1]), sp.srepr(sel[2]))
+    if key not in cache:
+        cache[key] = check_sections(sel) if isinstance(sel, BlockRows) else check_slices(*sel)
+        ctx = getattr(ev, "ctx", None)
+        if ctx is not None and cache[key][0]:
+            ctx.extra.setdefault("block_loops", []).append(f"{ev.here(n, mod)}: {cache[key][1]}")
+    ok, note = cache[key]
+    if not ok:
+        e = RaisedV("InputAssumption", ev.here(n, mod))
+        e.expected = "every row of the grid axis is processed, for every grid the configuration allows"
+        e.detail = f"a loop that works through a grid axis in blocks does not cover it for every axis length: {note}"
+        raise e
+    return note
+
+
+class BlockListV:
+    """numpy.array_split(numpy.arange(L), S): S index vectors that together are 0 .. L-1"""
+
+    def __init__(self, length, sections):
+        self.length, self.sections = length, sections
+
+    def sym_iter(self, ev, n, mod):
+        from .blocks import BlockRows
+        rows = BlockRows(self.length, self.sections)
+        block_cover(ev, rows, n, mod)           # the call itself raises when it is asked for no sections
+        return [rows]
+
+
+def lib_array_split(ev, a, k, n, mod):
+    x, sec = a[0], k.get("indices_or_sections", a[1] if len(a) > 1 else None)
+    ax = k.get("axis", a[2] if len(a) > 2 else sp.Integer(0))
+    if not (is_sym(x) and getattr(x, "func", None) is not None and getattr(x.func, "__name__", "") == "ARANGE" and len(x.args) == 1) or _const_int(ax) != 0:
+        raise ev.err("numpy.array_split of something other than numpy.arange(<axis length>)", n, mod)
+    if not is_sym(sec):
+        raise ev.err("numpy.array_split with explicit split points", n, mod)
+    return BlockListV(x.args[0], as_sym(sec))
+
+
+lib_array_split.kw = {"indices_or_sections", "axis"}
 
 
 def lib_tuple(ev, a, k, n, mod):
@@ -3236,6 +3361,8 @@ def lib_zeros(ev, a, k, n, mod):
     out = ArrV(batch, const, fill)
     if _is_bool_dtype(dt):
         out.is_cond = True
+    if batch and isinstance(a[0], Tup):
+        out.grid_dims = list(a[0].items[:batch])         # the lengths of the grid axes as the code wrote them (sizes, block loops)
     return out
 
 
@@ -5101,7 +5228,7 @@ def lib_arange(ev, a, k, n, mod):
 
 
 lib_arange.kw = {"dtype"}
-LIB.update({"numpy.arange": lib_arange})
+LIB.update({"numpy.arange": lib_arange, "numpy.array_split": lib_array_split})
 LIB.setdefault("numpy.concatenate", lib_concatenate)
 def lib_trace(ev, a, k, n, mod):
     x = a[0]
